@@ -106,16 +106,23 @@ class Doc:
         return code_stream(self.lexer, new_text) == self.stream
 
 
-def payload_for(lang, kind, style_idx, indent=""):
-    st = styles(lang)
+SPACE_LINES = ["    ", " \t ", "\x0c", " \x0b ", "\t\t"]            # whitespace-only lines, incl. a ^L page break
+TRAIL_WS = ["   ", "\t", " \x0c", " \x0b", "  \t "]
+
+
+def payload_for(lang, kind, style_idx, indent="", salt=0):
+    """Concrete text for an abstract edit; `salt` (the line) rotates through the variants so that a run with
+    few abstract styles still uses all of them."""
+    st = styles(lang) + [LANGS[lang]["line"] + " page\x0cbreak \x0b in a comment"]
+    v = style_idx - 1 + salt
     if kind == "blank":
         return ""
     if kind == "spaces":
-        return "    " if style_idx % 2 else " \t "
+        return SPACE_LINES[v % len(SPACE_LINES)]
     if kind == "comment":
-        return indent + st[(style_idx - 1) % len(st)]
+        return indent + st[v % len(st)]
     if kind == "trail_comment":
-        return "  " + st[(style_idx - 1) % len(st)]
+        return "  " + st[v % len(st)]
     if kind == "trail_ws":
-        return "   " if style_idx % 2 else "\t"
+        return TRAIL_WS[v % len(TRAIL_WS)]
     raise ValueError(kind)
